@@ -450,7 +450,11 @@ def run_case(case):
                 return await drive_async(build_async(), case['stop'])
 
             return asyncio.run(main())
-        return drive_sync(build_sync(), case['stop'])
+        r = drive_sync(build_sync(), case['stop'])
+        # "... has exited WHEN the iterator is closed": a census at this very instant, before any garbage collection of ours could
+        # finish off an executor that was merely dropped (sync shapes: the library joins its helpers before close returns)
+        stats['instant'] = watch.census()
+        return r
 
     obs = {'cases': 1, 'early_stop_cases': 0, 'failure_cases': 0, 'failure_reached_consumer': 0, 'census_checks': 0}
     try:
@@ -488,6 +492,20 @@ def run_case(case):
         obs['failure_reached_consumer'] = 1
         if raised != 1 or after != 'stopiteration':
             viol.append({'mech': f'{shape}/failure-not-exactly-once/{fk}', 'msg': f'failure raised {raised} times; next() after the failure gave {after!r}'})
+    inst = stats.get('instant')
+    if inst is not None and shape in ('parmap-thread', 'parmap-process', 'buffer', 'buffer>parmap', 'parmap>buffer'):
+        bpids = {p for p, _ in before['children']}
+        kids = [c for c in inst['children'] if c[0] not in bpids]
+        bt = list(before['threads'])
+        thr = []
+        for th in inst['threads']:
+            if th in bt:
+                bt.remove(th)
+            elif not th[0].startswith(('QueueFeederThread', 'case-body', 'vf-', 'asyncio_')):
+                thr.append(th)
+        obs['instant_census_checks'] = 1
+        if kids or thr:
+            viol.append({'mech': f'{shape}/alive-at-close/{fk}', 'msg': f'alive at the instant close() returned: processes {kids!r} threads {thr!r}'[:500]})
     extra, info = watch.leak_check(before, wait=5.0, ignore_thread=lambda name, daemon, cls: name.startswith('asyncio_') and daemon)
     obs['census_checks'] = 1
     if extra:
